@@ -6,6 +6,8 @@ package xmss
 
 func verifLeaf(hf HashFunction, leaf []uint8, otsAddr *[8]uint32) bool { return false }
 
+func verifNode(hf HashFunction, out []uint8, addr *[8]uint32) bool { return false }
+
 func verifHash(hf HashFunction, typeValue uint32, buf, out []uint8) {}
 
 func verifRound(site int, leafIdx uint32) {}
